@@ -1320,7 +1320,13 @@ std::ostream& expression_t::print(std::ostream& os, bool old) const
         get(1).print(os << '[', old) << ']';
         break;
 
-    case UNARY_MINUS: embrace(os << '-', old, get(0), precedence); break;
+    case UNARY_MINUS:
+        if (get(0).get_kind() == CONSTANT && ((get(0).get_type().is(Constants::DOUBLE) && get(0).get_double_value() < 0) ||
+                                              (get(0).get_type().is_integer() && get(0).get_value() < 0)))
+            get(0).print(os << "-(", old) << ')';  // "--1" would be lexed as a decrement
+        else
+            embrace(os << '-', old, get(0), precedence);
+        break;
 
     case POST_DECREMENT:
     case POST_INCREMENT: embrace(os, old, get(0), precedence) << (get_kind() == POST_DECREMENT ? "--" : "++"); break;
